@@ -46,8 +46,8 @@ pub mod ceval {
 
     #[derive(Debug, Clone, PartialEq)]
     pub enum COut {
-        /// refused before evaluation: (stage, error)
-        Refused(&'static str, SimplicityErr),
+        /// refused before evaluation: (stage, error, the root CMR when the program part decoded)
+        Refused(&'static str, SimplicityErr, Option<[u8; 32]>),
         /// `evalTCOExpression` returned this (NoError = success); CMR and IHR of the root
         Eval(SimplicityErr, [u8; 32], [u8; 32]),
     }
@@ -63,34 +63,34 @@ pub mod ceval {
             let mut dag = std::ptr::null_mut();
             let len = match SimplicityErr::from_i32(simplicity_decodeMallocDag(&mut dag, simplicity_elements_decodeJet, &mut census, &mut prog_stream)) {
                 Ok(n) => n as usize,
-                Err(e) => return COut::Refused("decode", e),
+                Err(e) => return COut::Refused("decode", e, None),
             };
             let _d1 = FreeOnDrop(dag as *mut u8);
             if let Err(e) = SimplicityErr::from_i32(simplicity_closeBitstream(&mut prog_stream)) {
-                return COut::Refused("close-program", e);
+                return COut::Refused("close-program", e, None);
             }
             let cmr = Midstate::from((*dag.add(len - 1)).cmr).to_parts().0;
             let mut type_dag = std::ptr::null_mut();
             if let Err(e) = simplicity_mallocTypeInference(&mut type_dag, simplicity_elements_mallocBoundVars, dag, len as _, &census).into_result() {
-                return COut::Refused("type-inference", e);
+                return COut::Refused("type-inference", e, Some(cmr));
             }
             let _d2 = FreeOnDrop(type_dag as *mut u8);
             if let Err(e) = simplicity_fillWitnessData(dag, type_dag, len as _, &mut wit_stream).into_result() {
-                return COut::Refused("witness", e);
+                return COut::Refused("witness", e, Some(cmr));
             }
             if let Err(e) = SimplicityErr::from_i32(simplicity_closeBitstream(&mut wit_stream)) {
-                return COut::Refused("close-witness", e);
+                return COut::Refused("close-witness", e, Some(cmr));
             }
             let mut ihr = Default::default();
             let sh = simplicity_verifyNoDuplicateIdentityHashes(&mut ihr, dag, type_dag, len as _);
             if sharing {
                 if let Err(e) = sh.into_result() {
-                    return COut::Refused("sharing", e);
+                    return COut::Refused("sharing", e, Some(cmr));
                 }
             }
             let ihr = Midstate::from(ihr).to_parts().0;
             if (*dag.add(len - 1)).aux_types.types[0] != 0 || (*dag.add(len - 1)).aux_types.types[1] != 0 {
-                return COut::Refused("one-one", SimplicityErr::TypeInferenceNotProgram);
+                return COut::Refused("one-one", SimplicityErr::TypeInferenceNotProgram, Some(cmr));
             }
             let budget: *const ubounded = std::ptr::null();
             let r = simplicity_evalTCOExpression(flags, std::ptr::null_mut(), std::ptr::null(), dag, type_dag, len, 0, budget, env);
